@@ -3,6 +3,7 @@ package ecscache
 //verif:pkg internal/ecscache
 
 import (
+	"strings"
 	"context"
 	"net"
 	"net/netip"
@@ -67,8 +68,17 @@ func (w *verifRW4) WriteMsg(_ context.Context, _, resp *dns.Msg) error {
 }
 
 func verifAsk4(mw *Middleware, up *verifUpstream4, ad, do bool) *dns.Msg {
+	return verifAsk4x(mw, up, ad, do, true, false, "example.org.", 0)
+}
+
+// verifAsk4x asks with every header bit, the ID and the spelling of the name chosen by
+// the caller.
+func verifAsk4x(mw *Middleware, up *verifUpstream4, ad, do, rd, cd bool, name string, id uint16) *dns.Msg {
 	req := &dns.Msg{}
-	req.SetQuestion("example.org.", dns.TypeA)
+	req.SetQuestion(name, dns.TypeA)
+	req.Id = id
+	req.RecursionDesired = rd
+	req.CheckingDisabled = cd
 	req.AuthenticatedData = ad
 	if do {
 		req.SetEdns0(1232, true)
@@ -84,7 +94,7 @@ func verifAsk4(mw *Middleware, up *verifUpstream4, ad, do bool) *dns.Msg {
 // rcode, flags and records as the answer the same request gets from upstream, whoever
 // populated the cache.
 //
-//verif:harness name=H04e-cached-equals-fresh tier=quick,thorough bounds="first requester and second requester of the same question with independent symbolic AD / DO bits; upstream answer with symbolic AD, rcode from {NOERROR, NXDOMAIN}, scope zero or not; second requester compared with a cache-less twin; one-slot cache stub" reach=hit,compared maxpaths=50000
+//verif:harness name=H04e-cached-equals-fresh tier=quick,thorough bounds="first requester and second requester of the same question with independent symbolic AD / DO / RD / CD bits, IDs and spelling of the name; upstream answer with symbolic AD, rcode from {NOERROR, NXDOMAIN}, scope zero or not; second requester compared with a cache-less twin; one-slot cache stub" reach=hit,compared maxpaths=50000
 //verif:assume no expiry between the two requests (TTL 300, same instant); upstream is a function of the question
 func VerifC04CachedEqualsFresh() {
 	verifPoolMode(1) // released pooled objects (cache requests, cloned messages) are handed back
@@ -98,15 +108,20 @@ func VerifC04CachedEqualsFresh() {
 
 	cached := verifMW(&verifCache{}, &verifCache{})
 	cached.geoIP = verifGeo4{}
-	_ = verifAsk4(cached, up, ad0, do0)
+	// the two requesters differ in everything the cache key does not contain
+	rd0, cd0, rd1, cd1 := nondetBool(), nondetBool(), nondetBool(), nondetBool()
+	id0, id1 := nondetU16(), nondetU16()
+	names := []string{"example.org.", "ExAmPlE.oRg."}
+	n0, n1 := names[verifChoice(2)], names[verifChoice(2)]
+	_ = verifAsk4x(cached, up, ad0, do0, rd0, cd0, n0, id0)
 	before := up.calls
-	got := verifAsk4(cached, up, ad1, do1)
+	got := verifAsk4x(cached, up, ad1, do1, rd1, cd1, n1, id1)
 	hit := up.calls == before
 
 	freshUp := &verifUpstream4{ad: up.ad, rcode: up.rcode, ttl: up.ttl, scope: up.scope}
 	plain := verifMW(&verifCache{}, &verifCache{})
 	plain.geoIP = verifGeo4{}
-	want := verifAsk4(plain, freshUp, ad1, do1)
+	want := verifAsk4x(plain, freshUp, ad1, do1, rd1, cd1, n1, id1)
 
 	if hit {
 		verifReach("hit")
@@ -114,10 +129,12 @@ func VerifC04CachedEqualsFresh() {
 	verifAssert("same-rcode", got.Rcode == want.Rcode)
 	verifAssert("same-ad-flag", got.AuthenticatedData == want.AuthenticatedData)
 	verifAssert("same-ra-flag", got.RecursionAvailable == want.RecursionAvailable)
+	verifAssert("same-rd-and-cd-flags", got.RecursionDesired == want.RecursionDesired && got.CheckingDisabled == want.CheckingDisabled)
+	verifAssert("same-id-and-question-spelling", got.Id == want.Id && len(got.Question) == 1 && len(want.Question) == 1 && got.Question[0] == want.Question[0])
 	verifAssert("same-record-counts", len(got.Answer) == len(want.Answer) && len(got.Ns) == len(want.Ns))
 	if len(got.Answer) == 1 && len(want.Answer) == 1 {
 		a, b := got.Answer[0].(*dns.A), want.Answer[0].(*dns.A)
-		verifAssert("same-answer-data", a.A.Equal(b.A) && a.Hdr.Rrtype == b.Hdr.Rrtype && a.Hdr.Name == b.Hdr.Name)
+		verifAssert("same-answer-data", a.A.Equal(b.A) && a.Hdr.Rrtype == b.Hdr.Rrtype && strings.EqualFold(a.Hdr.Name, b.Hdr.Name))
 		verifAssert("cached-ttl-not-above-fresh", a.Hdr.Ttl <= b.Hdr.Ttl)
 	}
 	verifReach("compared")
